@@ -40,8 +40,8 @@ def run(ctx, res):
     res.guard(RR.rule_loop_until_empty, prog, res, "video_sink_thread", "last")
     res.guard(RR.rule_wiring, prog, res)
     res.guard(RR.rule_frame_counter, prog, res)
-    res.guard(RR.rule_consume, prog, res, "video_sink_thread", "append")
-    res.guard(RR.rule_consume, prog, res, "process_data", "iterate")
+    res.guard(RR.rule_consume_file, prog, res, "video_sink_thread", "append")
+    res.guard(RR.rule_consume_file, prog, res, "process_data", "iterate")
     res.guard(RR.rule_drain_after_stop, prog, res, "video_sink_thread", {"storage_append"})
     res.guard(RR.rule_drain_after_stop, prog, res, "video_filter_thread", {"process_data"}, passes=2)
     # a failed / not yet filled reservation of the source is never published by the filter
